@@ -199,7 +199,22 @@ func VH_C05_split(kinds int) {
 	verif.Assume(L >= 1 && L < 64)
 	leader := &vhLeader{f: lf, log: logreader.VHNewLog(L), applied: L}
 	nh := verif.NewNodeHost()
-	ff := fsm.VHNewFSM(nil)
+	// the leader's content at every index L..L+3; after EVERY proposal the follower
+	// applies (not only at the end of the round) its content must be the leader's
+	// at exactly the leader index it has recorded
+	at := [][]*regattapb.KeyValue{fsm.VHContent(lf)}
+	var ff *fsm.FSM
+	started := false
+	ff = fsm.VHNewFSM(func(uint64) {
+		if !started {
+			return
+		}
+		_, _, li := fsm.VHSummary(ff)
+		verif.Assert(li >= L && li-L < uint64(len(at)), "after a proposal: the recorded leader index is one the leader produced")
+		if li >= L && li-L < uint64(len(at)) {
+			vhSameContent(fsm.VHContent(ff), at[li-L], "after a proposal: follower content == leader content at the recorded leader index")
+		}
+	})
 	for _, kv := range fsm.VHContent(lf) {
 		fsm.VHPut(ff, kv.Key, kv.Value)
 	}
@@ -221,7 +236,9 @@ func VH_C05_split(kinds int) {
 		}
 		_, err = leader.SyncPropose(context.Background(), nil, b)
 		verif.Assert(err == nil, "leader applies the command")
+		at = append(at, fsm.VHContent(lf))
 	}
+	started = true
 	srv := regattaserver.NewLogServer(leader, &logreader.Simple{LogQuerier: leader.log}, zap.NewNop(), 0)
 	w := &worker{
 		workerFactory: &workerFactory{engine: eng, logClient: &vhLogClient{srv: srv}, logTimeout: time.Minute, log: zap.NewNop().Sugar()},
